@@ -84,6 +84,8 @@ def extra_checks(ctx, out, pid: str, instances: List, repo: str) -> None:
         problems.append(f"benign twins flagged: {summary['false_alarms'][:4]}")
     if summary['undecided']:
         problems.append(f"undecided on corpus variants: {summary['undecided'][:4]}")
+    if summary.get('repairs_not_recognised'):
+        problems.append(f"repaired variants still flagged: {summary['repairs_not_recognised'][:4]}")
     out.selftest_problems = problems
     if problems and os.environ.get('VERIF_SELFTEST_STRICT') == '1':
         raise AnalysisError('self-test of the checker failed: ' + '; '.join(problems))
